@@ -31,7 +31,7 @@ def setup_worker(tier=None):
 def cases(tier, seed):
   out = []
   q = tier == 'quick'
-  n = 48 if q else 500
+  n = 48 if q else 5000
   for i in range(n):
     r = rng_for('c13', seed, i)
     name = 'SDML_Supervised' if i % 4 == 3 else 'SDML'
